@@ -8,7 +8,7 @@ C01.6 provider pipe offset siblings"""
 import re
 
 from ..core import switches, CheckError, Site, op_base, op_const, op_local, op_place
-from ..prov import derives_from_local, sources
+from ..prov import derives_from_local, reads_locals, sources
 
 SEQ_GUARD = r"^std::sync::poison::mutex::MutexGuard<'_, std::collections::hash::map::HashMap<alloc::string::String, u64>>$"
 WRITER_GUARD = r"^std::sync::poison::mutex::MutexGuard<'_, std::io::buffered::bufwriter::BufWriter<std::fs::File>>$"
@@ -376,6 +376,7 @@ def run(ctx):
     c017(ctx)
     c018(ctx)
     c019(ctx)
+    c0110(ctx)
 
 
 # ---------------------------------------------------------------------- C01.5 seq cell typestate
@@ -716,6 +717,53 @@ def c018(ctx):
         ctx.ob('C01.8', f, 'raced:%s' % X.replace('ripd::', ''), not bad,
                '%s %s: %s' % (how, X, 'reaches no seq-critical coroutine (%d functions)' % len(par) if not bad else
                               'can be DROPPED while parked inside %s (frame stamped, seq consumed, not yet delivered): %s' % (bad[0], ' -> '.join(x.replace('ripd::', '') for x in P.chain(par, bad[0])))), line=s.line)
+
+
+# ---------------------------------------------------------------------- C01.10 one run per session stream
+def c0110(ctx):
+    from ..inline import inline_calls
+    from ..core import switches
+    P = ctx.prog
+    ctx.rule('C01.10', 'one run per session stream: the kernel numbers a run from 0 under the id of the SessionHandle it is started for, so every function that '
+             'starts ripd::session::run_session either claims the handle once-only on the way (an atomic read-modify-write on the handle — swap / compare_exchange / '
+             'fetch_or — whose result is branched on, with an edge that leaves without starting the run) or was handed a handle that the same function created. '
+             'A second POST /sessions/{id}/input on one session otherwise writes 0,1,2,0,1,2 for that stream and a validated replay of the store fails for good '
+             '(the repaired F-C01-reinput).')
+    RMW = r'^core::sync::atomic::Atomic(\w+|::<[^>]+>)::(swap|compare_exchange|compare_exchange_weak|fetch_or|fetch_and|fetch_xor|fetch_nand|fetch_add|fetch_update)$'
+    starts = [s for s in P.callers(r'^ripd::session::run_session$') if s.fn.crate == 'ripd']
+    ctx.floor('C01.10', 'sites that start run_session', len(starts), 1)
+    for st in starts:
+        f = st.fn
+        g = inline_calls(P, f, lambda body, callee: bool(body.calls(RMW)), depth=2, note=ctx.note)
+        gs = [x for x in g.calls(r'^ripd::session::run_session$')]
+        ok, why = False, 'no once-only claim (atomic read-modify-write whose result is branched on) dominates the start of the run'
+        for run in gs:
+            fresh = False
+            # the handle is created here: the session id / sender handed to the run derive from create_session in the same body
+            for c in g.calls(r'^ripd::runner::SessionEngine::create_session$'):
+                if g.dom(c.bb, run.bb):
+                    fresh = True
+            if fresh:
+                ok, why = True, 'the handle is created by the same function (a fresh stream)'
+                continue
+            claimed = False
+            for a in g.calls(RMW):
+                if not g.dom(a.bb, run.bb) or a.dest is None:
+                    continue
+                for (bi, on, ts, els) in switches(g):
+                    if not g.dom(a.bb, bi) or not g.dom(bi, run.bb):
+                        continue
+                    if a.dest['l'] not in reads_locals(g, on) and a.dest['l'] != (op_place(on) or {}).get('l'):
+                        continue
+                    tgts = set(ts.values()) | ({els} if els is not None else set())
+                    if any(not g.can_reach(t, run.bb) for t in tgts):
+                        claimed = True
+            if claimed:
+                ok, why = True, 'dominated by an atomic claim on the handle whose losing edge starts nothing'
+            else:
+                ok, why = False, 'no once-only claim (atomic read-modify-write whose result is branched on) dominates the start of the run'
+                break
+        ctx.ob('C01.10', f, 'one-run-per-handle', ok, 'run_session is started here: %s' % why, line=st.line)
 
 
 # ---------------------------------------------------------------------- C01.9 who may write the seq table
